@@ -92,3 +92,43 @@ add("C17", "reference-model oracle per shell + icontract K9/K6, loader-level hal
     "reproducible per seed; FSCAlignment.score is 1 on the template, bounded and symmetric.",
     "Shells with a bin within 1e-6 of a shell boundary, or holding < 1e-8 of either input's power, are undecided.",
     "DESIGN.md section 4 C17")
+
+add("C01", "analytic ground-truth poses (exactly rendered tomograms) + pose/feature oracle over loader kinds, K1 contract",
+    "An asymmetric Gaussian-mixture particle is rendered exactly (no interpolation) into tomograms at ground-truth poses "
+    "(R* uniform on SO(3) or axis-aligned); input molecules are the truth perturbed by a searched rotation q_k and a shift m "
+    "inside max_shifts measured in the input molecule frame; alignment is run through SubtomogramLoader, BatchLoader, "
+    "LoaderGroup, align_multi_templates, align_no_template (consensus oracle) and MockLoader for ZNCC/NCC/PCC, orders 1/3, "
+    "scales {1,0.5,0.7,2.3}, rotation sets given as Rotation / list / (max,step); output positions (0.25 px), orientations "
+    "(0.05 deg), shift/rotation/score features are compared with the truth.",
+    "Noise-free particles; multi-template species have equal energy (PCC scores are not normalised); template-free "
+    "alignment is judged by consensus of 6 molecules (spread <= 0.5 px and <= 0.6 x the input spread).",
+    "DESIGN.md section 4 C01")
+
+add("C04", "analytic displaced copies (exact ground truth) + accuracy oracle per model, K1 contract; mechanism-keyed known findings",
+    "Templates are analytic Gaussian mixtures; the sub-volume is the same mixture rendered at displacement d (no "
+    "interpolation), d in the closed box [-M, M]^3 incl. integer, fractional and boundary values, M on and off the 1/20 px "
+    "grid and anisotropic; all four models, masks none/binary/soft, cutoffs, single/dual-axis tilt models, random "
+    "orientations, gains/offsets; |shift - d| is held against the property's own 0.1 / 0.5 px, identity rotation, score, "
+    "fit == align, fitted image superimposes (sign convention).",
+    "Exceedances of the stated accuracy that match a listed mechanism (wedge bias of ZNCC/NCC, range-edge tail, FSC "
+    "integer-grid interpolation) are KNOWN-FINDINGs; their predicates bound the error size, so gross errors are still "
+    "violations. Displaced density is kept inside the box and inside masks (non-degenerate templates).",
+    "DESIGN.md section 4 C04, section 6")
+
+add("C05", "hostile-input workload + icontract postcondition K1 on every align call, loader-level frame check",
+    "Noise, constant, zero, spike, 1e6/1e-6-amplitude, unrelated and identical sub-volumes are aligned with all four models, "
+    "boxes 4-20 (odd/even/non-cubic), max_shifts zero / fractional off-grid / anisotropic / up to 2x box, with and without "
+    "rotation search; K1 watches every align call for exceptions-free, finite, in-range results; loader level "
+    "(align, align_multi_templates, LoaderGroup.align, scalar/tuple/array/int max_shifts in nm, scales) checks the "
+    "displacement of each molecule in its own frame and the align-d* features against max_shifts.",
+    "FSC is driven with max_shifts <= 3.2 px only (its landscape is a Python triple loop).",
+    "DESIGN.md section 4 C05")
+
+add("C06", "ground-truth (template j, rotation k, shift d) planting + candidate-evaluation event log (arg-max oracle)",
+    "Oracle A: images are species j (equal-energy analytic particles) rotated by searched rotation q_k and displaced by d, "
+    "for T in 1..4 and K in {1,2,3,5,7} incl. T>1 with K>1 and T != K, rotation sets as Rotation / list / (max,step): label "
+    "= k*T+j, quat = +-q_k, shift = d for align and fit; loader level through align(stack), align_multi_templates, "
+    "LoaderGroup.align_multi_templates (list and mapping): label feature = j and pose = truth. Oracle B: every call of the "
+    "model's _optimize is logged; the result must be the logged arg-max (score, shift, label, rotation), also on noise.",
+    "Oracle B relies on the model evaluating candidates through its _optimize method (observed T*K calls is asserted).",
+    "DESIGN.md section 4 C06")
